@@ -29,16 +29,17 @@ VARIABLES
   owed,     \* peers whose block was seen in a pair the spec refuses and who have not been stopped since
   failH,    \* heights of the refused pairs seen at the current pool.height (see StepStopPeer)
   wide,     \* [p, h] such that p has reported a range covering h at some point of the run
-  cuAge,    \* number of logged pools since IsCaughtUp last held
+  cands,    \* the pool states the reactor's IsCaughtUp may have seen: [honest, cu] of the pool logged at the
+            \* last Tick (taken right before the reactor's own evaluation) and of every pool logged since
   hand,     \* [done, h, honestInPool] from the Handover event
   viol, drift
 
-vars == <<l, tT, honest, gp, blocks, gst, gstore, owed, failH, wide, cuAge, hand, viol, drift>>
+vars == <<l, tT, honest, gp, blocks, gst, gstore, owed, failH, wide, cands, hand, viol, drift>>
 
 EmptyPool == [h |-> 1, req |-> << >>, peers |-> << >>, maxH |-> 0]
 Init ==
   /\ l = 1 /\ tT = 0 /\ honest = {} /\ gp = EmptyPool /\ blocks = << >>
-  /\ gst = [h |-> 0, lastID |-> NoBID] /\ gstore = << >> /\ owed = {} /\ failH = {} /\ wide = {} /\ cuAge = 100
+  /\ gst = [h |-> 0, lastID |-> NoBID] /\ gstore = << >> /\ owed = {} /\ failH = {} /\ wide = {} /\ cands = {}
   /\ hand = [done |-> FALSE, h |-> 0, honestInPool |-> FALSE]
   /\ viol = {} /\ drift = {}
 
@@ -121,7 +122,8 @@ InstallM(e, expected, tbl, st, extraDrift, extraViol, stoppedNow, mid) ==
                  \cup FailIf(lp \notin expected, D("pool after " \o e.ev \o " differs from the spec's"))
      /\ viol' = viol \cup extraViol
      /\ owed' = (owed \ stoppedNow) \cup newOwed
-     /\ cuAge' = IF IsCaughtUp(lp) THEN 0 ELSE IF cuAge < 100 THEN cuAge + 1 ELSE cuAge
+     /\ LET c == [honest |-> (DOMAIN lp.peers \cap honest) # {}, cu |-> IsCaughtUp(lp)] IN
+          cands' = IF e.ev = "Tick" THEN {c} ELSE IF cands = {} THEN {} ELSE cands \cup {c}
      /\ failH' = (IF PairRefused(lp, st) THEN {lp.h, lp.h + 1} ELSE {})
                  \cup (IF midRefused THEN {mid.h, mid.h + 1} ELSE {}) \cup {h \in failH : h >= lp.h}
 
@@ -132,7 +134,7 @@ StepReset(e) ==
   /\ tT' = e.T
   /\ honest' = {e.peers[i].p : i \in {j \in 1..Len(e.peers) : e.peers[j].honest}}
   /\ gp' = EmptyPool /\ blocks' = << >>
-  /\ gst' = [h |-> 0, lastID |-> NoBID] /\ gstore' = << >> /\ owed' = {} /\ failH' = {} /\ wide' = {} /\ cuAge' = 100
+  /\ gst' = [h |-> 0, lastID |-> NoBID] /\ gstore' = << >> /\ owed' = {} /\ failH' = {} /\ wide' = {} /\ cands' = {}
   /\ hand' = [done |-> FALSE, h |-> 0, honestInPool |-> FALSE]
   /\ UNCHANGED <<viol, drift>>
 
@@ -194,6 +196,13 @@ StepPlain(e) ==   \* NoBlock, Timeout
   IN /\ Install(e, {y}, blocks, gst, {}, {}, {})
      /\ UNCHANGED <<tT, honest, blocks, gst, gstore, hand, wide>>
 
+\* poolRoutine is about to evaluate IsCaughtUp; the harness evaluated it on the same pool: TRUE
+StepTick(e) ==
+  LET lp == PoolOfLog(e.pool, blocks) IN
+  /\ Install(e, {Infer(gp, lp)}, blocks, gst,
+             FailIf(~IsCaughtUp(lp), D("the code's IsCaughtUp holds where the spec's does not")), {}, {})
+  /\ UNCHANGED <<tT, honest, blocks, gst, gstore, hand, wide>>
+
 StepStopPeer(e) ==
   LET lp == PoolOfLog(e.pool, blocks)
       \* the stub reactor that reports the stop may run before or after BlockchainReactor.RemovePeer
@@ -241,13 +250,17 @@ PanicSpec(e) == e.h > 0 /\ ~VoteSetClean(e.lastVals, e.seen)
 StepHandover(e) ==
   LET lp == PoolOfLog(e.pool, blocks)
       x  == Infer(gp, lp)
-      \* IsCaughtUp was evaluated by the ticker before this event could be logged: an honest
-      \* peer counts as "in the pool" only if it was there before (gp) and still is (lp)
-  IN /\ hand' = [done |-> TRUE, h |-> e.h, honestInPool |-> (DOMAIN gp.peers \cap DOMAIN lp.peers \cap honest) # {}]
+      \* The reactor decided (pool.IsCaughtUp in the switchToConsensusTicker case) on the pool of the last
+      \* Tick or on the pool after one of the events logged since -- which one cannot be observed.  A
+      \* hand-over counts as taken "with an honest peer in the pool" only if EVERY candidate has one.
+      \* IsCaughtUp is the code's: within one block of the best peer the node KNOWS of at that moment; with a
+      \* low-lying liar as the only known peer the node legitimately leaves the sync at once.
+  IN /\ hand' = [done |-> TRUE, h |-> e.h, honestInPool |-> cands # {} /\ \A c \in cands : c.honest]
      /\ Install(e, {x}, blocks, gst,
                 FailIf(e.panic # PanicSpec(e), D("hand-over panic differs from the spec's prediction"))
-                \* (the ticker evaluated IsCaughtUp a few observable steps before the stub reactor could log)
-                \cup FailIf(~IsCaughtUp(lp) /\ cuAge > 3, D("hand-over although the spec's IsCaughtUp was false in the last logged pools"))
+                \cup FailIf(cands # {} /\ \A c \in cands : ~c.cu,
+                            D("hand-over although the spec's IsCaughtUp is false in every state the decision can have seen"))
+                \cup FailIf(cands = {}, D("hand-over without an observed evaluation of IsCaughtUp"))
                 \cup FailIf(e.h # gst.h, D("hand-over state height differs from the applied height")),
                 FailIf(e.panic, V("CleanHandover", "handover:" \o Concat(e.seen.slots))),
                 \* a pair that is still lying in the pool when the node leaves the sync was never
@@ -291,6 +304,7 @@ Step ==
          [] e.ev = "NoBlock"  -> StepPlain(e)
          [] e.ev = "Timeout"  -> StepPlain(e)
          [] e.ev = "StopPeer" -> StepStopPeer(e)
+         [] e.ev = "Tick"     -> StepTick(e)
          [] e.ev = "Save"     -> StepSave(e)
          [] e.ev = "Apply"    -> StepApply(e)
          [] e.ev = "Handover" -> StepHandover(e)
@@ -302,7 +316,7 @@ Finish ==
   /\ l = Len(Trace) + 1
   /\ WriteVerdict("verdict.json", Len(Trace), viol, drift)
   /\ l' = l + 1
-  /\ UNCHANGED <<tT, honest, gp, blocks, gst, gstore, owed, failH, hand, viol, drift, wide, cuAge>>
+  /\ UNCHANGED <<tT, honest, gp, blocks, gst, gstore, owed, failH, hand, viol, drift, wide, cands>>
 
 Next == Step \/ Finish
 =============================================================================
